@@ -3,7 +3,7 @@
    generated types; their composition over nested input types, and the converse (every valid
    assignment is expressible), are evaluated per case (RunVars.prop_c04): `partial`. *)
 From GC Require Import Base Rust Json TypeExpr Heck Naming Enums Schema Query Attrs Codegen Serde
-  Conform RespProofs Compose VarSpec VarProofs VarCert.
+  Conform RespProofs Compose VarSpec VarProofs VarCert StrategyAll OptionAll.
 
 (* the Variables struct of an operation is the struct of `variable_field`s *)
 Theorem C04_variables_struct : forall o op v vs, ro_vars op = v :: vs ->
@@ -92,3 +92,20 @@ Print Assumptions C04_oneof_key_name.
 Print Assumptions C04_enum_value_names.
 Print Assumptions C04_enum_other_refuted.
 Print Assumptions C04_nonnull_never_null.
+
+(* ---------- skip_serializing_none, for ALL programs (OptionAll.v): input objects and `Variables`
+   with the option off are the items with the option on, the skip-when-None flags cleared — same members,
+   same types, same wire keys; the same holds for every rendered response field of any selection. *)
+Theorem C04_skip_none_input_objects : forall s o inp,
+  input_item s (with_skip o false) inp = clear_skip_item (input_item s (with_skip o true) inp).
+Proof. exact input_item_skip. Qed.
+Theorem C04_skip_none_variables : forall o op,
+  variables_item (with_skip o false) op = clear_skip_item (variables_item (with_skip o true) op).
+Proof. exact variables_item_skip. Qed.
+Theorem C04_skip_none_response_fields : forall s frs o fuel c sels sid t p,
+  calc s frs (with_skip o false) fuel (cmap clear_skip c) sels sid t p =
+  option_map (cmap clear_skip) (calc s frs (with_skip o true) fuel c sels sid t p).
+Proof. exact skip_none_only_sets_the_flag. Qed.
+Print Assumptions C04_skip_none_input_objects.
+Print Assumptions C04_skip_none_variables.
+Print Assumptions C04_skip_none_response_fields.
